@@ -31,6 +31,7 @@ ODD_LINES = [
     'DATA {p} -1', 'DATA {p} 99999999999999999999999999', 'DATA {p}', 'DATA', 'FOO {p} 1', 'DIST a/b 1', 'TIMESTAMP 2017-13-01T00:00:00Z',
     'DATA {p} {s} SHA1', 'MANIFEST {d}/Manifest 3', 'MANIFEST {p} {s}', 'OPTIONAL {p}', 'DATA ../{p} {s}', 'DATA {p}/ 0',
     'DATA {p} {s} SHA1 zz', 'EBUILD {p} {s} __size__ 5', 'DATA {p} {s} MD5 00 MD5 11', 'AUX {p} {s}', 'DIST {p} 1 SHA1 00',
+    'IGNORE {d}\nIGNORE {d}', 'IGNORE dup-ignore\nIGNORE dup-ignore', 'IGNORE {p}\nIGNORE {p}',     # the same IGNORE twice (one of them is removed by de-duplication)
     'IGNORE {h}', 'IGNORE {h}', 'DATA {h}/x 0',                               # a hidden directory that is IGNOREd as well / has entries
     '@IGNORE-MANIFEST', '@IGNORE-MANIFEST', '@IGNORE-MANIFEST-TOO',       # a sub-Manifest file that is IGNOREd (instead of / besides being registered)
 ]
